@@ -30,7 +30,8 @@ def proc(k, modi, calls=(), meta=None):
 
 
 def typ(k, modi, extends=None, comps=(), meta=None):
-    return {"name": f"t{k}", "mod": modi, "extends": extends, "comps": [list(c) for c in comps], "meta": meta or {}}
+    return {"name": f"t{k}", "mod": modi, "extends": extends, "comps": [list(c) for c in comps], "meta": meta or {},
+            "binds": [], "gbinds": []}
 
 
 def case_of(m):
@@ -39,7 +40,7 @@ def case_of(m):
     opts = {"project": "G", "src_dir": "./src", "graph": True, "parallel": 0, "preprocess": False,
             "graph_maxdepth": o["graph_maxdepth"], "graph_maxnodes": o["graph_maxnodes"],
             "show_proc_parent": o["show_proc_parent"], "coloured_edges": o["coloured_edges"], "search": False,
-            "display": ["public", "private", "protected"]}
+            "proc_internals": o.get("proc_internals", True), "display": ["public", "private", "protected"]}
     files["project.md"] = site.project_file(opts)
     exp, cyc, trunc = c13.expectations(m)
     return {"files": files, "expected": exp, "graph_dir": False, "classes": ["witness"], "nontrivial": True}
@@ -70,6 +71,48 @@ m["options"]["graph_maxnodes"] = 2
 W["F-C13-4"] = m
 
 for fid, m in W.items():
+    case = case_of(m)
+    r = c13.check(case)
+    sigs = sorted({f.signature for f in r.failures})
+    json.dump({"property": "C13", "signature": None, "case": case}, open(f"/verif/findings/{fid}.json", "w"), indent=1)
+    print(fid, sigs)
+
+
+# ---- second batch (type-bound generics, internal procedures)
+def bproc(k, modi, tname, extra, calls=()):
+    p = proc(k, modi, calls)
+    p.update({"fn": False, "bound": {"type": tname, "extra": extra}, "internals": []})
+    return p
+
+
+def plain(k, modi, calls=(), internals=()):
+    p = proc(k, modi, calls)
+    p.update({"fn": False, "bound": None, "internals": [dict(x) for x in internals]})
+    return p
+
+
+def gtype():
+    t = typ(0, 0)
+    t["binds"] = [{"name": "bp0", "target": "p0"}, {"name": "bp1", "target": "p1"}]
+    t["gbinds"] = [{"name": "gbt0", "specs": ["bp0", "bp1"]}]
+    return t
+
+
+W2 = {}
+# F-C13-5: generic binding -> specific edges are dashed in 'calls' graphs but solid in 'called by' graphs
+m = base(mods=[mod(0)], types=[gtype()],
+         procs=[bproc(0, 0, "t0", "integer"), bproc(1, 0, "t0", "real"), plain(2, 0, [("gbind", "t0%gbt0")])],
+         placement={"module:m0": 0})
+W2["F-C13-5"] = m
+# F-C13-6: a generic binding / an internal procedure that nobody calls is missing from 'called by' graphs
+m = base(mods=[mod(0)], types=[gtype()],
+         procs=[bproc(0, 0, "t0", "integer"), bproc(1, 0, "t0", "real"),
+                plain(2, 0, [], internals=[{"name": "i0", "calls": [["proc", "p3"]]}]), plain(3, 0)],
+         placement={"module:m0": 0})
+m["options"]["proc_internals"] = True
+W2["F-C13-6"] = m
+for fid, m in W2.items():
+    m["options"].setdefault("proc_internals", True)
     case = case_of(m)
     r = c13.check(case)
     sigs = sorted({f.signature for f in r.failures})
